@@ -516,7 +516,13 @@ class ReplLockManager(object):
         self.__requestsCounter += 1
         attemptNum = self.__requestsCounter
         if sync:
-            acquireRes = self.__lockImpl.acquire(lockID, self.__selfID, attemptTime, callback=callback, sync=sync, timeout=timeout)
+            try:
+                acquireRes = self.__lockImpl.acquire(lockID, self.__selfID, attemptTime, callback=callback, sync=sync, timeout=timeout)
+            except Exception:
+                # The outcome is unknown (timeout, leader changed): the request may still be applied later
+                self.__markReleasing(lockID)
+                self.__lockImpl.release(lockID, self.__selfID, sync=False)
+                raise
             acquireTime = time.time()
             if acquireRes:
                 if acquireTime - attemptTime > self.__autoUnlockTime / 2.0:
@@ -536,6 +542,11 @@ class ReplLockManager(object):
                     self.__lockImpl.release(lockID, self.__selfID, sync=False)
                 elif self.__releasing.get(lockID, 0) < attemptNum:
                     self.__releasing.pop(lockID, None)
+            elif errCode != 0:
+                # The outcome is unknown (e.g. leader changed): the request may still be applied later,
+                # and we are about to report a failure - make sure we do not keep the lock then
+                self.__markReleasing(lockID)
+                self.__lockImpl.release(lockID, self.__selfID, sync=False)
             callback(acquireRes, errCode)
 
         self.__lockImpl.acquire(lockID, self.__selfID, attemptTime, callback=asyncCallback, sync=sync, timeout=timeout)
